@@ -46,6 +46,9 @@ type VC struct {
 	names  map[string]int
 	strs   map[string]string
 	absFns map[string]bool
+	usedSpecFuncs map[string]bool
+	LemmaOf string // non-empty: obligations are named <LemmaOf>#...
+	loopPre map[int]*State // state in which loop N of the function under verification was entered
 
 	Entry      *State
 	Params     map[string]Val
@@ -160,6 +163,9 @@ func (vc *VC) strConst(s string) string {
 func (vc *VC) oblige(kind, anchor, guard, goal, pos, desc string) *Obligation {
 	vc.flushSortDecls()
 	base := fmt.Sprintf("%s%s#%s:%s", FuncName(vc.Fn), strings.ReplaceAll(vc.Variant, "#", "~"), kind, anchor)
+	if vc.LemmaOf != "" {
+		base = fmt.Sprintf("%s#%s:%s", vc.LemmaOf, kind, anchor)
+	}
 	vc.names[base]++
 	name := base
 	if vc.names[base] > 1 {
